@@ -698,6 +698,12 @@ def classify_bool_expr(d):
             return ('unrec:capacity-const', True)
         # a copied count (let send_count = internal.send_count; ... if send_count == 0)
         # is the same load value, so it is covered above.
+        if is_call(a, 'backoff::get_parallelism') and b[0] == 'const':
+            if is_const(b, 1) and op == 'Eq':
+                return ('par1', True)
+            if is_const(b, 1) and op in ('Ne', 'Gt'):
+                return ('par1', False)
+            return ('unrec:parallelism-compare', True)
         # room: Q.len < capacity
         la = queue_len(a)
         lb = queue_len(b)
@@ -779,6 +785,10 @@ def classify_bool_expr(d):
             'std::cmp::PartialOrd::le': 'cmp_le',
             'std::cmp::PartialEq::eq': 'cmp_eq',
             'std::cmp::PartialEq::ne': 'cmp_ne',
+            'lock_api::RawMutex::try_lock': 'trylock_ok',
+            'std::ops::Fn::call': 'cond',
+            'std::ops::FnMut::call_mut': 'cond',
+            'std::ops::FnOnce::call_once': 'cond',
             'std::result::Result::is_err': 'res_is_err',
             'std::result::Result::is_ok': 'res_is_ok',
         }
